@@ -228,6 +228,13 @@ def apply_fn_aliases(data, role):
     return m
 
 
+def reference_fn_paths(role):
+    try:
+        return {r['path'] for r in json.load(open(FREF)).get(role, [])}
+    except (OSError, ValueError):
+        return None
+
+
 def reference_consts(role):
     try:
         return set(json.load(open(os.path.join(os.path.dirname(REF), 'const_names.json'))).get(role, []))
